@@ -175,6 +175,14 @@ theorem exec_inv : ∀ (f : Nat) (t : Task) (w : World), Inv w.c → RInv (exec 
               intro w1 v h1; exact h1
             · exact hw
           | nop => exact hw
+          | ret0 => exact hw
+          | ra a verb =>
+            try simp only
+            split
+            · exact hw
+            · refine ite_inv (crashR_inv hw) ?_
+              refine ite_inv ?_ (by exact hw)
+              exact sentOnly_inv (eraseSent_sentOnly _ _ _) hw
           | obf =>
             try simp only
             refine ite_inv (crashR_inv hw) ?_
@@ -196,25 +204,121 @@ theorem exec_inv : ∀ (f : Nat) (t : Task) (w : World), Inv w.c → RInv (exec 
       refine andThen_inv (ih _ _ ?_) ?_
       · cases k <;> cases arg <;> exact hw
       · intro w1 v h1; exact h1
-    | load b =>
-      simp only [exec]
-      split
-      · exact crashR_inv hw
-      · have hl := lookupC_inv { base := b, num := none } hw
+    | load b strict =>
+      have hstrict : ∀ (w1 : World) (v : Option Nat), Inv w1.c → RInv (match v with
+          | none => ({ w := w1, val := none } : R)
+          | some ob => if strict = true ∧ (w1.c.objs ob).destructed = true then { w := w1, val := none }
+                       else { w := w1, val := some ob }) := by
+        intro w1 v h1
+        split
+        · exact h1
+        · split <;> exact h1
+      cases b with
+      | nofile =>
+        have hl := lookupC_inv { base := .nofile, num := none } hw
+        simp only [exec]
+        refine ite_inv (crashR_inv hw) ?_
         split
         · exact hl
-        · rename_i hnone
-          have hsame := lookupC_none_core hnone
-          have hfree := lookupC_none_free hw hnone
-          have halloc : Inv (alloc (lookupC w.c { base := b, num := none }).1 { base := b, num := none } false).1 := by
+        · rename_i hlk
+          have hsame := lookupC_none_core hlk
+          have hfree := lookupC_none_free hw hlk
+          have halloc : Inv (alloc (lookupC w.c { base := .nofile, num := none }).1 { base := .nofile, num := none } false).1 := by
             rw [hsame]; exact alloc_inv hw hfree (by simp)
+          refine ite_inv (raise_inv (by exact hl)) ?_
+          exact andThen_inv (by exact hl) hstrict
+      | badfile =>
+        have hl := lookupC_inv { base := .badfile, num := none } hw
+        simp only [exec]
+        refine ite_inv (crashR_inv hw) ?_
+        split
+        · exact hl
+        · rename_i hlk
+          have hsame := lookupC_none_core hlk
+          have hfree := lookupC_none_free hw hlk
+          have halloc : Inv (alloc (lookupC w.c { base := .badfile, num := none }).1 { base := .badfile, num := none } false).1 := by
+            rw [hsame]; exact alloc_inv hw hfree (by simp)
+          refine ite_inv (raise_inv (by exact hl)) ?_
+          exact andThen_inv (raise_inv (by exact hl)) hstrict
+      | ih k =>
+        have hl := lookupC_inv { base := .ih k, num := none } hw
+        simp only [exec]
+        refine ite_inv (crashR_inv hw) ?_
+        split
+        · exact hl
+        · rename_i hlk
+          have hsame := lookupC_none_core hlk
+          have hfree := lookupC_none_free hw hlk
+          have halloc : Inv (alloc (lookupC w.c { base := .ih k, num := none }).1 { base := .ih k, num := none } false).1 := by
+            rw [hsame]; exact alloc_inv hw hfree (by simp)
+          refine ite_inv (raise_inv (by exact hl)) ?_
+          refine andThen_inv ?_ hstrict
+          have hlB := lookupC_inv { base := .bp k, num := none } hl
+          have hnB := lookupC_n (lookupC w.c { base := .ih k, num := none }).1 { base := .bp k, num := none }
+          have hn0 := lookupC_n w.c { base := .ih k, num := none }
           split
-          · exact hl
-          · exact raise_inv hl
-          all_goals
-            refine andThen_inv (ih _ _ ?_) ?_
-            · exact halloc
-            · intro w1 v h1; split <;> exact h1
+          · rename_i r hr
+            split at hr
+            · cases hr; exact crashR_inv (by exact hl)
+            · split at hr
+              · cases hr
+              · cases hr
+                refine andThen_inv (ih _ _ (by exact hlB)) ?_
+                intro w1 v h1
+                split
+                · exact raise_inv h1
+                · exact andThen_inv (ih _ _ h1) (fun w2 v2 h2 => h2)
+          · rename_i w' hr
+            split at hr
+            · cases hr
+            · split at hr
+              · cases hr
+                refine andThen_inv (ih _ _ ?_) (fun w1 v h1 => h1)
+                refine alloc_inv (by exact hlB) ?_ (by simp)
+                intro i hi hd
+                rw [hnB.1, hn0.1] at hi
+                rw [hnB.2, hn0.2] at hd ⊢
+                exact hfree i hi hd
+              · cases hr
+      | bp k =>
+        have hl := lookupC_inv { base := .bp k, num := none } hw
+        simp only [exec]
+        refine ite_inv (crashR_inv hw) ?_
+        split
+        · exact hl
+        · rename_i hlk
+          have hsame := lookupC_none_core hlk
+          have hfree := lookupC_none_free hw hlk
+          have halloc : Inv (alloc (lookupC w.c { base := .bp k, num := none }).1 { base := .bp k, num := none } false).1 := by
+            rw [hsame]; exact alloc_inv hw hfree (by simp)
+          refine ite_inv (raise_inv (by exact hl)) ?_
+          exact andThen_inv (andThen_inv (ih _ _ (by exact halloc)) (fun w1 v h1 => h1)) hstrict
+      | master =>
+        have hl := lookupC_inv { base := .master, num := none } hw
+        simp only [exec]
+        refine ite_inv (crashR_inv hw) ?_
+        split
+        · exact hl
+        · rename_i hlk
+          have hsame := lookupC_none_core hlk
+          have hfree := lookupC_none_free hw hlk
+          have halloc : Inv (alloc (lookupC w.c { base := .master, num := none }).1 { base := .master, num := none } false).1 := by
+            rw [hsame]; exact alloc_inv hw hfree (by simp)
+          refine ite_inv (raise_inv (by exact hl)) ?_
+          exact andThen_inv (andThen_inv (ih _ _ (by exact halloc)) (fun w1 v h1 => h1)) hstrict
+      | simul =>
+        have hl := lookupC_inv { base := .simul, num := none } hw
+        simp only [exec]
+        refine ite_inv (crashR_inv hw) ?_
+        split
+        · exact hl
+        · rename_i hlk
+          have hsame := lookupC_none_core hlk
+          have hfree := lookupC_none_free hw hlk
+          have halloc : Inv (alloc (lookupC w.c { base := .simul, num := none }).1 { base := .simul, num := none } false).1 := by
+            rw [hsame]; exact alloc_inv hw hfree (by simp)
+          refine ite_inv (raise_inv (by exact hl)) ?_
+          exact andThen_inv (andThen_inv (ih _ _ (by exact halloc)) (fun w1 v h1 => h1)) hstrict
     | clone b =>
       simp only [exec, hbRemove_c]
       refine andThen_inv (ih _ _ hw) ?_
@@ -315,10 +419,20 @@ theorem exec_inv : ∀ (f : Nat) (t : Task) (w : World), Inv w.c → RInv (exec 
       refine ite_inv (crashR_inv hw) ?_
       refine ite_inv (by exact hw) ?_
       refine ite_inv (by exact hw) ?_
+      refine andThen_inv (ih _ _ (by exact hw)) ?_
+      intro w1 v h1; exact h1
+    | cmdloop a verb rest saveIsa =>
+      simp only [exec]
       split
       · exact hw
-      · refine andThen_inv (ih _ _ (by exact hw)) ?_
-        intro w1 v h1; exact h1
+      · refine ite_inv (ih _ _ hw) ?_
+        refine andThen_inv (ih _ _ hw) ?_
+        intro w1 v h1
+        refine ite_inv (by exact h1) ?_
+        refine ite_inv (by exact h1) ?_
+        refine ite_inv (raise_inv (by exact h1)) ?_
+        refine ite_inv (raise_inv (by exact h1)) ?_
+        exact ih _ _ (by exact h1)
     | destruct ob =>
       simp only [exec]
       refine ite_inv (raise_inv hw) ?_
